@@ -10,6 +10,7 @@ use vmodel::ty::Ty;
 use vmodel::val::{shape, Val};
 
 pub mod basic;
+pub mod cursor;
 pub mod faultio;
 pub mod files;
 pub mod format;
@@ -46,6 +47,7 @@ pub fn default_cases(prop: &str, tier: Tier) -> u32 {
         "C13" | "C14" => (10, 48),
         "C15" => (16, 96),
         "C08" => (6, 24),
+        "C16" => (24, 160),
         _ => (32, 256),
     };
     match tier {
